@@ -178,6 +178,20 @@ def run_fit(case, R):
             R.mark_nontrivial(*sig)
     R.sample(dict(lane='fit', kind=kind, cls=case['cls'], shape=list(s.aff_shape), opts=case['opts'], iters=s.iterations,
                   min_class_mass=mass, post_min=float(post.min()), post_max=float(post.max())))
+    if kind == 'cacgmm':
+        # the other public form of the same posterior: predict(..., return_quadratic_form=True) - same array, with and without a mask
+        try:
+            with instr.options(**s.copts):
+                pq, qf = model.predict(s.data['y'], return_quadratic_form=True, **pk)
+            pq = np.asarray(pq)
+            R.check('C01.M2', pq.shape == post.shape and np.array_equal(pq, post), 'predict/cacgmm/quadratic-form-variant',
+                    'CACGMM.predict(return_quadratic_form=True) returns another affiliation than predict() with the same arguments', masked=bool(pk))
+            R.check('C01.M2', np.asarray(qf).shape == post.shape and bool(np.all(np.asarray(qf) >= 0)), 'predict/cacgmm/quadratic-form-shape',
+                    f'quadratic form shape {np.asarray(qf).shape} / sign')
+        except Exception as e:
+            if not instr.is_library_exception(e):
+                raise
+            R.count(f'predict(return_quadratic_form=True) raised {type(e).__name__}')
     # fit_predict ------------------------------------------------------------------------------------
     try:
         with instr.options(**s.copts):
